@@ -48,15 +48,17 @@ type fn struct {
 }
 
 type tr struct {
-	fieldID map[*types.Var]int
-	fieldNm []string
-	classID map[string]int
-	classNm []string
-	fnByObj map[*types.Func]*fn
-	fnByLit map[*ast.FuncLit]*fn
-	fns     []*fn
-	notes   []string
-	fieldOf map[*types.Var]string
+	fieldID  map[*types.Var]int
+	fieldNm  []string
+	classID  map[string]int
+	classNm  []string
+	fnByObj  map[*types.Func]*fn
+	fnByLit  map[*ast.FuncLit]*fn
+	fns      []*fn
+	notes    []string
+	fieldOf  map[*types.Var]string
+	closedOf map[*types.Var]*types.Var // map/slice field of a struct that has a `closed bool` field -> that field
+	insID    map[*types.Var]int
 }
 
 func short(path string) string {
@@ -75,6 +77,23 @@ func (t *tr) class(name string) int {
 	t.classID[name] = id
 	t.classNm = append(t.classNm, name)
 	return id
+}
+
+// insField is the pseudo field "<struct>.<field>+insert": written whenever an element is added to the map or
+// slice held in that field (x.f[k] = v, x.f = append(x.f, ...)).  Only fields of structs that also have a
+// `closed bool` field get one (registries that Close drains).
+func (t *tr) insField(v *types.Var) (int, bool) {
+	nm, ok := t.fieldOf[v]
+	if !ok || t.closedOf[v] == nil {
+		return 0, false
+	}
+	if id, ok := t.insID[v]; ok {
+		return id, true
+	}
+	id := len(t.fieldNm)
+	t.insID[v] = id
+	t.fieldNm = append(t.fieldNm, nm+"+insert")
+	return id, true
 }
 
 func (t *tr) field(v *types.Var) (int, bool) {
@@ -105,12 +124,25 @@ func isSyncType(t types.Type) bool {
 func (t *tr) collectFields(pkgs []*packages.Package) {
 	var walk func(prefix string, st *types.Struct)
 	walk = func(prefix string, st *types.Struct) {
+		var closed *types.Var
+		for i := 0; i < st.NumFields(); i++ {
+			f := st.Field(i)
+			if b, ok := f.Type().Underlying().(*types.Basic); ok && b.Kind() == types.Bool && f.Name() == "closed" {
+				closed = f
+			}
+		}
 		for i := 0; i < st.NumFields(); i++ {
 			f := st.Field(i)
 			if isSyncType(f.Type()) {
 				continue
 			}
 			t.fieldOf[f] = prefix + "." + f.Name()
+			if closed != nil {
+				switch f.Type().Underlying().(type) {
+				case *types.Map, *types.Slice:
+					t.closedOf[f] = closed
+				}
+			}
 		}
 	}
 	for _, p := range pkgs {
@@ -198,6 +230,7 @@ func (t *tr) nodeInstrs(f *fn, n ast.Node, out *[]instr) {
 	pkg := f.pkg
 	// selectors written by this node
 	writes := map[*ast.SelectorExpr]bool{}
+	inserts := map[*ast.SelectorExpr]bool{}
 	atomics := map[*ast.SelectorExpr]bool{}
 	baseSel := func(e ast.Expr) *ast.SelectorExpr {
 		for {
@@ -224,9 +257,24 @@ func (t *tr) nodeInstrs(f *fn, n ast.Node, out *[]instr) {
 		case *ast.FuncLit:
 			return false
 		case *ast.AssignStmt:
-			for _, l := range s.Lhs {
+			for li, l := range s.Lhs {
 				if b := baseSel(l); b != nil {
 					writes[b] = true
+					// an element is added: x.f[k] = v   or   x.f = append(x.f, ...)
+					if ix, ok := l.(*ast.IndexExpr); ok {
+						if sel, ok := ix.X.(*ast.SelectorExpr); ok && sel == b {
+							inserts[b] = true
+						}
+					}
+					if sel, ok := l.(*ast.SelectorExpr); ok && sel == b && li < len(s.Rhs) {
+						if call, ok := s.Rhs[li].(*ast.CallExpr); ok {
+							if id, ok := call.Fun.(*ast.Ident); ok && id.Name == "append" && len(call.Args) > 0 {
+								if _, bare := call.Args[0].(*ast.SelectorExpr); bare { // append(x.f[:i], x.f[i+1:]...) removes
+									inserts[b] = true
+								}
+							}
+						}
+					}
 				}
 			}
 		case *ast.IncDecStmt:
@@ -272,6 +320,11 @@ func (t *tr) nodeInstrs(f *fn, n ast.Node, out *[]instr) {
 				if v, ok := s.Obj().(*types.Var); ok && !atomics[e] && !f.rootedAtFresh(e) {
 					if id, ok := t.field(v); ok {
 						*out = append(*out, instr{op: "RAccess", a: id, w: writes[e]})
+					}
+					if inserts[e] {
+						if id, ok := t.insField(v); ok {
+							*out = append(*out, instr{op: "RAccess", a: id, w: true})
+						}
 					}
 				}
 			}
@@ -490,7 +543,7 @@ func main() {
 		os.Exit(1)
 	}
 	sort.Slice(pkgs, func(i, j int) bool { return pkgs[i].PkgPath < pkgs[j].PkgPath })
-	t := &tr{fieldID: map[*types.Var]int{}, classID: map[string]int{}, fnByObj: map[*types.Func]*fn{}, fnByLit: map[*ast.FuncLit]*fn{}, fieldOf: map[*types.Var]string{}}
+	t := &tr{fieldID: map[*types.Var]int{}, classID: map[string]int{}, fnByObj: map[*types.Func]*fn{}, fnByLit: map[*ast.FuncLit]*fn{}, fieldOf: map[*types.Var]string{}, closedOf: map[*types.Var]*types.Var{}, insID: map[*types.Var]int{}}
 	t.collectFields(pkgs)
 	// pass 1: enumerate functions
 	for _, pkg := range pkgs {
@@ -656,6 +709,39 @@ func main() {
 		}
 		return o
 	}
+	// registration rules: (insert pseudo field, the `closed` field of the same struct), for the registries that the
+	// struct's own Close method walks (the members Close shuts down: listeners, dialers, pipes, contexts ...)
+	closeTouches := map[int]bool{} // field ids accessed by a method named Close of the field's own struct
+	for _, f := range t.fns {
+		if !strings.HasSuffix(f.name, ".Close") {
+			continue
+		}
+		owner := strings.TrimSuffix(f.name, ".Close") + "."
+		for _, b := range f.blocks {
+			for _, in := range b.body {
+				if in.op == "RAccess" && strings.HasPrefix(t.fieldNm[in.a], owner) {
+					closeTouches[in.a] = true
+				}
+			}
+		}
+	}
+	var rules []string
+	type rl struct{ ins, cl int }
+	var rls []rl
+	for v, id := range t.insID {
+		fid, ok := t.fieldID[v]
+		if !ok || !closeTouches[fid] {
+			continue
+		}
+		if cid, ok := t.field(t.closedOf[v]); ok {
+			rls = append(rls, rl{id, cid})
+		}
+	}
+	sort.Slice(rls, func(i, j int) bool { return rls[i].ins < rls[j].ins })
+	for _, r := range rls {
+		rules = append(rules, fmt.Sprintf("(%d, %d)", r.ins, r.cl))
+	}
+	w.Def("atom_rules", "list (N * N)", rules)
 	w.Def("field_names", "list string", q(t.fieldNm))
 	w.Def("class_names", "list string", q(t.classNm))
 	var fnn []string
